@@ -1,94 +1,123 @@
-(* H2c.v — RFC 9380 message expanders (pkg/base/curves/impl/rfc9380/expanders)
-   and hash_to_field reduction, with the hash function a section variable.
-   Executable; no proofs. *)
+(* H2c.v — RFC 9380 message expanders (pkg/base/curves/impl/rfc9380/expanders) and
+   hash_to_field (pkg/base/curves/impl/rfc9380/h2f.go), with the hash function a section
+   variable.  Executable; no proofs.
+
+   The byte strings that are hashed, the oversize-DST rule, the abort guards, the loop
+   bounds and the output truncation are NOT written here: they are the definitions of
+   gen/Expanders.v, regenerated from xmd.go / xof.go on every run.  What is hand-written
+   is (a) the chaining skeleton (which digest feeds which input) of [expand_message_xmd/xof],
+   tied by the C19 correspondence, and (b) the [rfc_*] definitions: RFC 9380 §5.3 transcribed
+   from the RFC text, to which proofs/H2c_proofs.v proves the generated pieces equal. *)
 From Coq Require Import List NArith Bool.
 Import ListNotations.
-Require Import V.base.Bytes.
+Require Import V.base.Bytes V.gen.Expanders.
 Local Open Scope N_scope.
-
-Definition i2osp (n : N) (k : nat) : bytes := be_bytes k n.
-
-Definition oversize_prefix : bytes :=   (* "H2C-OVERSIZE-DST-" *)
-  [72;50;67;45;79;86;69;82;83;73;90;69;45;68;83;84;45].
-
-Fixpoint xor_bytes (a b : bytes) : bytes :=
-  match a, b with
-  | x :: a', y :: b' => N.lxor x y :: xor_bytes a' b'
-  | _, _ => []
-  end.
 
 Fixpoint repeat_zero (k : nat) : bytes :=
   match k with O => [] | S k' => 0 :: repeat_zero k' end.
 
+(* ---- RFC 9380 §5.3.1 / §5.3.2 / §5.3.3 as written in the RFC (specification side) ---- *)
+Definition rfc_oversize_prefix : bytes :=   (* "H2C-OVERSIZE-DST-" *)
+  [72;50;67;45;79;86;69;82;83;73;90;69;45;68;83;84;45].
+Definition rfc_oversize (dst : bytes) : bool := 255 <? len dst.                 (* len(DST) > 255 *)
+Definition rfc_dst_prime (d : bytes) : bytes := d ++ be_bytes 1 (len d).        (* DST || I2OSP(len(DST),1) *)
+Definition rfc_xmd_ell (len_in_bytes b_in_bytes : N) : N := (len_in_bytes + b_in_bytes - 1) / b_in_bytes.
+Definition rfc_xmd_abort (len_in_bytes b_in_bytes : N) : bool :=
+  (255 <? rfc_xmd_ell len_in_bytes b_in_bytes) || (65535 <? len_in_bytes).
+Definition rfc_xmd_msg_prime (s_in_bytes : N) (d msg : bytes) (len_in_bytes : N) : bytes :=
+  repeat_zero (N.to_nat s_in_bytes) ++ msg ++ be_bytes 2 len_in_bytes ++ be_bytes 1 0 ++ rfc_dst_prime d.
+Definition rfc_xmd_b1_input (b0 d : bytes) : bytes := b0 ++ be_bytes 1 1 ++ rfc_dst_prime d.
+Definition rfc_xmd_bi_input (b0 bprev : bytes) (i : N) (d : bytes) : bytes :=
+  xor_bytes b0 bprev ++ be_bytes 1 i ++ rfc_dst_prime d.
+Definition rfc_xof_abort (len_in_bytes : N) : bool := 65535 <? len_in_bytes.
+Definition rfc_xof_msg_prime (d msg : bytes) (len_in_bytes : N) : bytes :=
+  msg ++ be_bytes 2 len_in_bytes ++ rfc_dst_prime d.
+Definition rfc_xof_oversize_len (k : N) : N := (2 * k + 7) / 8.                 (* ceil(2k/8) *)
+
+(* ---- expand_message_xmd: skeleton over the generated pieces ------------------------- *)
 Section XMD.
   Variable H : bytes -> bytes.       (* fixed-output hash *)
-  Variable b_in_bytes : N.           (* output size of H *)
-  Variable s_in_bytes : N.           (* block size of H *)
+  Variable b_in_bytes : N.           (* output size of H  (h.Size())      *)
+  Variable s_in_bytes : N.           (* block size of H   (h.BlockSize()) *)
 
-  Definition xmd_dst (dst : bytes) : bytes :=
-    if 255 <? len dst then H (oversize_prefix ++ dst) else dst.
+  (* step 0 of the code: the DST that is used from then on *)
+  Definition xmd_dst (dst msg : bytes) (l : N) : bytes :=
+    if Xmd_oversize s_in_bytes b_in_bytes dst msg l
+    then H (Xmd_oversize_input s_in_bytes b_in_bytes dst msg l) else dst.
 
-  Definition dst_prime_of (d : bytes) : bytes := d ++ i2osp (len d) 1.
+  (* the first hash input, as a function of the effective DST *)
+  Definition xmd_msg_prime (d msg : bytes) (l : N) : bytes := Xmd_b0_input s_in_bytes b_in_bytes d msg l.
 
-  Definition xmd_msg_prime (d msg : bytes) (len_in_bytes : N) : bytes :=
-    repeat_zero (N.to_nat s_in_bytes) ++ msg ++ i2osp len_in_bytes 2 ++ i2osp 0 1 ++ dst_prime_of d.
-
-  Definition xmd_b1_input (b0 d : bytes) : bytes := b0 ++ i2osp 1 1 ++ dst_prime_of d.
-  Definition xmd_bi_input (b0 bprev : bytes) (i : N) (d : bytes) : bytes :=
-    xor_bytes b0 bprev ++ i2osp i 1 ++ dst_prime_of d.
-
-  (* blocks b_2 .. b_ell given b_0 and the previous block; [k] more to produce, next index [i] *)
-  Fixpoint xmd_blocks (k : nat) (i : N) (b0 bprev d : bytes) : bytes :=
-    match k with
+  (* the loop `for i := from; cond i; i++ { b[i] = H(bi_input) }`; fuel = size of the block table *)
+  Fixpoint xmd_loop (fuel : nat) (i : N) (d msg : bytes) (l : N) (b0 bprev : bytes) : list bytes :=
+    match fuel with
     | O => []
-    | S k' => let bi := H (xmd_bi_input b0 bprev i d) in bi ++ xmd_blocks k' (i + 1) b0 bi d
+    | S k =>
+        if Xmd_loop_cond s_in_bytes b_in_bytes d msg l i then
+          let bi := H (Xmd_bi_input s_in_bytes b_in_bytes d msg l b0 bprev i) in
+          bi :: xmd_loop k (i + 1) d msg l b0 bi
+        else []
     end.
 
-  Definition xmd_ell (len_in_bytes : N) : N := (len_in_bytes + b_in_bytes - 1) / b_in_bytes.
-
-  (* None = the code panics ("invalid length") *)
-  Definition expand_message_xmd (dst msg : bytes) (len_in_bytes : N) : option bytes :=
-    let d := xmd_dst dst in
-    let ell := xmd_ell len_in_bytes in
-    if (255 <? ell) || (65535 <? len_in_bytes) then None
-    else if ell =? 0 then None   (* the code indexes b[1] of a 1-element slice: panic *)
+  (* None = the code panics ("invalid length", index out of range, slice bounds) *)
+  Definition expand_message_xmd (dst msg : bytes) (l : N) : option bytes :=
+    let d := xmd_dst dst msg l in
+    if Xmd_abort s_in_bytes b_in_bytes d msg l then None
     else
-      let b0 := H (xmd_msg_prime d msg len_in_bytes) in
-      let b1 := H (xmd_b1_input b0 d) in
-      let rest := xmd_blocks (N.to_nat ell - 1) 2 b0 b1 d in
-      Some (firstn (N.to_nat len_in_bytes) (b1 ++ rest)).
+      let nblocks := Xmd_blocks s_in_bytes b_in_bytes d msg l in     (* make([][]byte, ell+1) *)
+      if nblocks <? 2 then None                                       (* b[1] out of range *)
+      else
+        let b0 := H (Xmd_b0_input s_in_bytes b_in_bytes d msg l) in
+        let b1 := H (Xmd_b1_input s_in_bytes b_in_bytes d msg l b0) in
+        let rest := xmd_loop (N.to_nat nblocks) (Xmd_loop_from s_in_bytes b_in_bytes d msg l) d msg l b0 b1 in
+        let u := concat (skipn (N.to_nat (Xmd_out_from_block s_in_bytes b_in_bytes d msg l)) (b0 :: b1 :: rest)) in
+        let n := Xmd_out_truncate s_in_bytes b_in_bytes d msg l in
+        if len u <? n then None else Some (firstn (N.to_nat n) u).
 End XMD.
 
+(* ---- expand_message_xof ------------------------------------------------------------- *)
 Section XOF.
   Variable X : bytes -> N -> bytes.  (* extendable-output function: input, length *)
   Variable k_sec : N.
 
-  Definition xof_dst (dst : bytes) : bytes :=
-    if 255 <? len dst then X (oversize_prefix ++ dst) ((2 * k_sec + 7) / 8) else dst.
+  Definition xof_dst (dst msg : bytes) (l : N) : bytes :=
+    if Xof_oversize k_sec dst msg l
+    then X (Xof_oversize_input k_sec dst msg l) (Xof_oversize_len k_sec dst msg l) else dst.
 
-  Definition xof_msg_prime (d msg : bytes) (len_in_bytes : N) : bytes :=
-    msg ++ i2osp len_in_bytes 2 ++ dst_prime_of d.
+  Definition xof_msg_prime (d msg : bytes) (l : N) : bytes := Xof_input k_sec d msg l.
 
-  Definition expand_message_xof (dst msg : bytes) (len_in_bytes : N) : option bytes :=
-    let d := xof_dst dst in
-    if 65535 <? len_in_bytes then None
-    else Some (X (xof_msg_prime d msg len_in_bytes) len_in_bytes).
+  Definition expand_message_xof (dst msg : bytes) (l : N) : option bytes :=
+    let d := xof_dst dst msg l in
+    if Xof_abort k_sec d msg l then None
+    else
+      let u := X (Xof_input k_sec d msg l) (Xof_out_len k_sec d msg l) in
+      Some (firstn (N.to_nat (Xof_out_truncate k_sec d msg l)) u).
 End XOF.
 
-(* hash_to_field, step 3–8: chunks of L bytes read big-endian and reduced mod p.
-   (The code reverses each chunk and calls SetUniformBytes, which reads little-
-   endian and reduces.)  Result: count elements of m coordinates each. *)
-Fixpoint chunks (k : nat) (L : nat) (u : bytes) : list bytes :=
-  match k with
-  | O => []
-  | S k' => firstn L u :: chunks k' L (skipn L u)
-  end.
+(* ---- hash_to_field (h2f.go), loop for loop ------------------------------------------ *)
+(* elm_offset = L * (j + i * m);  tv = uniform_bytes[elm_offset : elm_offset+L];
+   slices.Reverse(tv);  SetUniformBytes(e_0..e_{m-1}): every component is SetBytesWide of its
+   chunk = little-endian value reduced mod p. *)
+Definition elm_offset (L m i j : N) : N := L * (j + i * m).
+Definition substr (u : bytes) (off n : N) : bytes := firstn (N.to_nat n) (skipn (N.to_nat off) u).
+Definition set_bytes_wide (p : N) (le : bytes) : N := le_value le mod p.
 
-Fixpoint group (count m : nat) (l : list N) : list (list N) :=
-  match count with
-  | O => []
-  | S c => firstn m l :: group c m (skipn m l)
-  end.
+Fixpoint nseq (k : nat) (from : N) : list N :=
+  match k with O => [] | S k' => from :: nseq k' (from + 1) end.
 
-Definition hash_to_field_from_uniform (p : N) (count m L : nat) (u : bytes) : list (list N) :=
-  group count m (map (fun tv => be_value tv mod p) (chunks (count * m) L u)).
+Definition h2f_coordinate (p L m : N) (u : bytes) (i j : N) : N :=
+  set_bytes_wide p (rev (substr u (elm_offset L m i j) L)).
+
+Definition h2f_element (p L m : N) (u : bytes) (i : N) : list N :=
+  map (h2f_coordinate p L m u i) (nseq (N.to_nat m) 0).
+
+Definition hash_to_field_from_uniform (p L m count : N) (u : bytes) : list (list N) :=
+  map (h2f_element p L m u) (nseq (N.to_nat count) 0).
+
+(* the whole function: len_in_bytes = count*m*L, expand, split.  None = expander panics. *)
+Definition hash_to_field (expand : bytes -> bytes -> N -> option bytes)
+    (p L m count : N) (dst msg : bytes) : option (list (list N)) :=
+  match expand dst msg (count * m * L) with
+  | None => None
+  | Some u => Some (hash_to_field_from_uniform p L m count u)
+  end.
